@@ -6,6 +6,7 @@ import (
 	"fmt"
 	"io"
 	"strconv"
+	"strings"
 
 	"github.com/freeconf/yang/node"
 	"github.com/freeconf/yang/val"
@@ -125,9 +126,10 @@ func (wtr *JSONWtr) container(lvl int) node.Node {
 			wtr._out.WriteString("\n")
 			end := 2 * lvl
 			if end > len(padding) {
-				panic("too deep nesting")
+				wtr._out.WriteString(strings.Repeat(" ", end))
+			} else {
+				wtr._out.WriteString(padding[0:end])
 			}
-			wtr._out.WriteString(padding[0:end])
 		}
 		return
 	}
